@@ -101,10 +101,10 @@ Theorem select_tie_invariant : forall (P : Type) rk1 rk2 c (pop : list (agent P)
 Proof. exact @select_tie_invariant_lemma. Qed.
 Print Assumptions select_tie_invariant.
 
-(* over any number of generations (select, then fitness appended to every member), with any ranking
-   function, draws and scores: indices stay pairwise distinct and the size is population_size *)
+(* over any number of generations (select, then an arbitrary mutation of everything but index and
+   fitness, then scores appended to every member), with any ranking function, draws, mutations and scores: indices stay pairwise distinct and the size is population_size *)
 Theorem indices_distinct_over_generations :
-  forall (P : Type) (rkf : list Q -> list nat) c (gs : list (list (list nat) * list (list Q))),
+  forall (P : Type) (rkf : list Q -> list nat) c (gs : list (@generation P)),
   0 < psize c -> forall pop : list (agent P), pop <> [] -> NoDup (map a_index pop) ->
   let r := run_generations rkf c pop gs in
   NoDup (map a_index r) /\ r <> [] /\ (gs <> [] -> length r = psize c).
@@ -115,7 +115,7 @@ Print Assumptions indices_distinct_over_generations.
 (* over the whole history of populations ([trace]: before the first generation, after the first, ...):
    an index handed out as fresh in some generation never occurs in any earlier population *)
 Theorem fresh_never_reused :
-  forall (P : Type) (rkf : list Q -> list nat) c (gs : list (list (list nat) * list (list Q))),
+  forall (P : Type) (rkf : list Q -> list nat) c (gs : list (@generation P)),
   0 < psize c -> forall pop : list (agent P), pop <> [] ->
   forall g1 g2 p1 p2, g1 < g2 ->
     nth_error (trace rkf c pop gs) g1 = Some p1 -> nth_error (trace rkf c pop gs) g2 = Some p2 ->
